@@ -12,12 +12,14 @@ prop = Prop(
     rule=(
         "workflows source(list of 1..12) -> scatter -> 1..3 schedule+execute steps (chained or parallel) bound to the local "
         "deployment, a shell-backed fake remote deployment (1..2 locations, targets asking for 1..2 locations) or an identity-"
-        "mount wrapper stacked on it, with or without directories fixed by the schedule step. Non-trivial = some step with >= 2 "
+        "mount wrapper stacked on it, with or without directories fixed by the schedule step (none, input only, all three, all three nested inside the output directory). Non-trivial = some step with >= 2 "
         "jobs scheduled; distinct by the whole case."
     ),
     level_text="Random search; every job token of the run is inspected: three directories exist on the host for each allocated location, are registered as available there, and are pairwise distinct across jobs unless fixed.",
     level_note="All fake locations live on this host (os.path.isdir is the existence oracle); wrapped locations use identity mounts only. Real subprocesses are used, so schedules are whatever asyncio produces; the oracle is timing-independent.",
 )
+
+prop.engine = "detloop"
 
 case_strategy = st.fixed_dictionaries(
     {
@@ -27,7 +29,7 @@ case_strategy = st.fixed_dictionaries(
                 {
                     "target": st.sampled_from(["local", "remote", "remote", "wrapped"]),
                     "locations": st.integers(1, 2),
-                    "fixed": st.sampled_from(["none", "none", "none", "input", "all"]),
+                    "fixed": st.sampled_from(["none", "none", "none", "input", "all", "nested"]),
                     "chain": st.booleans(),
                 }
             ),
@@ -39,8 +41,39 @@ case_strategy = st.fixed_dictionaries(
 )
 
 
-@prop.given("scatter-exec", case_strategy, quick=96, thorough=2000, loop="std", shrink=False, case_timeout=180)
+@prop.given("scatter-exec", case_strategy, quick=96, thorough=2000, loop="std", shrink=False, case_timeout=600)
 async def check(case, rec):
+    await _run(case, rec, local_only=False)
+
+
+local_case = st.fixed_dictionaries(
+    {
+        "n": st.one_of(st.integers(1, 12), st.sampled_from([1, 2, 10, 12])),
+        "steps": st.lists(
+            st.fixed_dictionaries(
+                {
+                    "target": st.just("local"),
+                    "locations": st.just(1),
+                    "fixed": st.sampled_from(["none", "none", "input", "all", "nested"]),
+                    "chain": st.booleans(),
+                }
+            ),
+            min_size=1,
+            max_size=3,
+        ),
+        "remote_locations": st.just(1),
+    }
+)
+
+
+@prop.given("local-deterministic", local_case, quick=400, thorough=20000)
+async def check_local(case, rec):
+    """Same oracle on the local deployment only, on the deterministic loop: a job that never gets its
+    directories (e.g. waiting forever for a location to become available) is an exact deadlock verdict."""
+    await _run(case, rec, local_only=True)
+
+
+async def _run(case, rec, local_only):
     import os
     import shutil
     import tempfile
@@ -61,7 +94,8 @@ async def check(case, rec):
         remote = deployment_config("R", "vf-shell", locations=nloc, workdir=os.path.join(sandbox, "remote"))
         wrapped = deployment_config("W", "vf-wrap", wraps="R", workdir=os.path.join(sandbox, "wrapped"))
         # the wrapped deployment is resolved by name: deploy both up front (wrapped before wrapper)
-        await deploy_all(ctx, [remote, wrapped])
+        if not local_only:
+            await deploy_all(ctx, [remote, wrapped])
         wf = Workflow(context=ctx, name="w", config={})
         src = wf.create_port()
         sc = wf.create_step(ScatterStep, name="/scatter")
@@ -86,6 +120,10 @@ async def check(case, rec):
             if sd["fixed"] == "all":
                 kw["output_directory"] = os.path.join(sandbox, f"fixed-out-{k}")
                 kw["tmp_directory"] = os.path.join(sandbox, f"fixed-tmp-{k}")
+            if sd["fixed"] == "nested":  # input and tmp directories fixed inside the fixed output directory
+                kw["output_directory"] = os.path.join(sandbox, f"fixed-out-{k}")
+                kw["input_directory"] = os.path.join(sandbox, f"fixed-out-{k}", "in")
+                kw["tmp_directory"] = os.path.join(sandbox, f"fixed-out-{k}", "tmp")
             inp = cur if sd["chain"] else elems
             out, ex, sched = exec_pipeline(wf, f"/e{k}", {"x": inp}, lambda d: progs.exec_fn(d["x"]), None, log=log, targets=[target], sched_kwargs=kw)
             wf.output_ports[f"o{k}"] = out.name
@@ -114,9 +152,12 @@ async def check(case, rec):
                     if not d or not os.path.isdir(d):
                         raise Violation("C15:directory-missing", f"{job.name}: {role} directory {d!r} does not exist")
                     for loc in locs:
-                        if not ctx.data_manager.get_data_locations(d, loc.deployment, loc.name):
+                        dls = ctx.data_manager.get_data_locations(d, loc.deployment, loc.name)
+                        if not dls:
                             raise Violation("C15:directory-not-registered", f"{job.name}: {role} directory {d} not registered on {loc.deployment}/{loc.name}")
-                    is_fixed = fixed_of[k] == "all" or (fixed_of[k] == "input" and role == "input")
+                        if not any(dl.available.is_set() for dl in dls):
+                            raise Violation("C15:directory-registered-but-not-available", f"{job.name}: {role} directory {d} is registered on {loc.deployment}/{loc.name} but never marked available")
+                    is_fixed = fixed_of[k] in ("all", "nested") or (fixed_of[k] == "input" and role == "input")
                     key = os.path.realpath(d)
                     if key in seen and not is_fixed:
                         raise Violation("C15:directory-shared", f"{job.name} {role} directory {d} is also used by {seen[key]}")
@@ -129,7 +170,8 @@ async def check(case, rec):
         rec.nontrivial(concurrent >= 2)
     finally:
         try:
-            await ctx.deployment_manager.undeploy_all()
+            if not local_only:
+                await ctx.deployment_manager.undeploy_all()
         finally:
             await ctx.close()
             shutil.rmtree(sandbox, ignore_errors=True)
